@@ -224,6 +224,41 @@ def refine_cases(rng, n):
     return cases
 
 
+def integrate_contract(chk, n):
+    """CONTRACT oracle for the scripted 'integrate' primitive: the real refinePointIntegrate, started on either side of the surface (psi above
+    and below psival, both signs of psi), ends closer to it (observed ratio of residuals <= 0.22 on the pinned tree; bound 0.5).  Added because of seed C01-9."""
+    rng = random.Random(chk.seed + 303)
+    hx = lambda v: float(v).hex()
+    cases = []
+    for k in range(n):
+        sg = rng.choice([-1.0, 1.0])
+        coef = [sg * rng.uniform(0.5, 2.0), sg * rng.uniform(0.5, 3.0), sg * rng.uniform(-0.3, 0.3), 0.0, 0.0]
+        R, Z = rng.uniform(1.0, 2.0), rng.uniform(-1.0, 1.0)
+        p0 = coef[0] * R * R + coef[1] * Z * Z + coef[2] * R * Z
+        d = (1 if k % 2 else -1) * 10 ** rng.uniform(-5, -1.5)
+        cases.append(dict(kind="integrate_direct", coef=[hx(x) for x in coef], psival=hx(p0 * (1 + d)), atol=hx(1e-8), p=[hx(R), hx(Z)], t=[hx(0.0), hx(1.0)], offset=d))
+    rc, res, o, e = common.run_impl_json("impl/refine.py", dict(cases=cases), timeout=600)
+    if res is None or len(res) != len(cases):
+        chk.tie_broken("impl/refine.py:integrate", f"implementation run failed rc={rc}: {(o + e)[-1000:]}")
+        return 0
+    worst, nd = 0.0, 0
+    for c, r in zip(cases, res):
+        if r[0] != "done":
+            continue          # an explicit SolutionError is handled by refinePoint's fallback chain (modelled)
+        nd += 1
+        pv, a, b = float.fromhex(c["psival"]), float.fromhex(r[3]), float.fromhex(r[4])
+        ratio = abs(b - pv) / abs(a - pv)
+        worst = max(worst, ratio)
+        if not ratio < 0.5:
+            side = "psi-above" if (a - pv) > 0 else "psi-below"
+            chk.fail(f"integrate:moves-away:{side}", "refinePointIntegrate does not move the point towards its flux surface (residual after / before >= 0.5)",
+                     dict(case=c, psi_start=a, psi_end=b, psival=pv, ratio=ratio))
+    chk.notes["integrate_contract"] = {"cases": len(cases), "done": nd, "worst_residual_ratio": worst}
+    if nd < len(cases) // 2:
+        chk.tie_broken("impl/refine.py:integrate", f"refinePointIntegrate failed on {len(cases) - nd} of {len(cases)} smooth cases")
+    return nd
+
+
 def refine_correspondence(chk, n):
     """run the PrimFloat instance of the model and the real methods on the same inputs; outcomes must agree bit for bit"""
     fl = lambda h: common.fhex(float.fromhex(h))
@@ -371,6 +406,7 @@ def run(chk):
             chk.tie_broken("model:follow", f"the executable model does not return psivals order on the generated cases: {(oq + eq)[-500:]}")
     nr = refine_correspondence(chk, 400 if chk.tier == "quick" else 3000)
     nr += pin_oracle(chk)
+    nr += integrate_contract(chk, 200 if chk.tier == "quick" else 2000)
     # an upper disconnected double null whose inboard and outboard SOL limits differ (C01 only): the SOL segments of inner and outer regions have different psi grids
     extra = [corpus.tok("udn_solin", "udn", corpus.DN, options=dict(psinorm_sol_inner=1.1), must_build=True)]
     if chk.tier == "quick":      # both interpolation methods in the quick tier too
